@@ -8,6 +8,7 @@ and related to the abstract cache.  Proofs in `Lemmas/DeclRefine.lean` (which im
 parses back to itself (`SriRT`; true of every integrity in canonical form, `parse_print_canon`).
 -/
 import Cacache.Lemmas.DeclRefine
+import Cacache.Lemmas.Gaps
 
 namespace Cacache.C08x
 open Prog Refine CacheRefine DeclRefine
@@ -88,5 +89,27 @@ theorem cache_refines_map_declared (ops : List (Env × COp)) (fs : FS) (h : Heal
     absCache cfg cache (cRunOps cfg cache ops fs).2 = (cSpecRun cfg ops (absCache cfg cache fs)).2 ∧
     Healthy cfg cache (cRunOps cfg cache ops fs).2 :=
   DeclRefine.cache_refines_map' cfg cache ops fs h hl hops
+
+
+/-- **A by-address write with a wrong declared size, totally** (from `Lemmas/Gaps.lean`).  From a
+healthy cache, a whole by-address writer (any flavour, algorithm, chunking) that declared the size `n`
+but was fed another number of bytes: the answer is exactly the size error; every lookup of every key
+answers as before; what IS published is stated exactly - the content store maps the address of the
+bytes fed to those bytes and nothing else changed; healthy, nothing left in `cache/tmp`. -/
+theorem putHash_wrong_size_total (env : Env) (fl : Flavour) (o : WriteOpts) (chunks : List Bytes)
+    (fs : FS) (h : Healthy cfg cache fs) (hl : HexLen cfg) (n : Nat) (hs : o.sri = none)
+    (hz : o.size = some n) (hne : n ≠ chunks.flatten.length) :
+    (run env (writeStream cfg cache fl none o chunks) fs).1 = .error (.size n chunks.flatten.length) ∧
+    absIndex cfg cache (run env (writeStream cfg cache fl none o chunks) fs).2.1 = absIndex cfg cache fs ∧
+    (∀ env' key, (run env' (find cfg cache key) (run env (writeStream cfg cache fl none o chunks) fs).2.1).1 =
+      (run env' (find cfg cache key) fs).1) ∧
+    absStore cache (run env (writeStream cfg cache fl none o chunks) fs).2.1 =
+      (absStore cache fs).set (o.algo.getD .sha256)
+        (Bytes.hex (cfg.H (o.algo.getD .sha256) chunks.flatten)) (some chunks.flatten) ∧
+    (∀ env', (run env' (readHash cfg cache (Sri.compute cfg.H (o.algo.getD .sha256) chunks.flatten))
+        (run env (writeStream cfg cache fl none o chunks) fs).2.1).1 = .ok chunks.flatten) ∧
+    Healthy cfg cache (run env (writeStream cfg cache fl none o chunks) fs).2.1 ∧
+    TmpClean cache fs (run env (writeStream cfg cache fl none o chunks) fs).2.1 :=
+  Gaps.putHash_wrong_size_total cfg cache env fl o chunks fs h hl n hs hz hne
 
 end Cacache.C08x
